@@ -94,7 +94,7 @@ class Obligation:
                     smt_ms=self.smt_ms, canary_fails_as_expected=self.canary_ok, engine='verus/z3')
 
 
-def run_verus(path, rlimit, extra=(), timeout=1800):
+def run_verus(path, rlimit, extra=(), timeout=600):
     cmd = ['verus', os.path.basename(path), '--edition', '2024', '--triggers-mode', 'silent', '--output-json',
            '--time', '--rlimit', str(rlimit)] + list(extra)
     t0 = time.time()
